@@ -164,5 +164,25 @@ def run(chk):
             chk.ok('C19-global', 'FRESH_GEN')
     from sa.props.c20 import edge_rule_as
     edge_rule_as(chk, fx, 'C19-edge')      # an importer without its own dependency edge is neither ordered after the module nor joined with it
+    modid_rule(chk, fx)
     return ('Dominance rule in lower(), type-based scan for RandomState iteration (receiver types from rustc typeck), and a scope rule for named lock guards. '
             'Byte-identical output across schedules is not decided.'), {}
+
+
+def modid_rule(chk, fx):
+    """ModId is a registration counter: with parallel analysis its values follow the order in which the threads finish"""
+    CACHE = 'crates/erg_compiler/module/cache.rs'
+    chk.rule('C19-modid', 'a module id is taken from a counter when the analysis of the module registers its result (ModuleCache::register: `last_id += 1`), so with parallel analysis it '
+                          'depends on the schedule: ModId carries no order (no PartialOrd / Ord impl), hence nothing emitted can be sorted by it — sorting the hoisted module declarations '
+                          'of the linker by ModId gives a different byte sequence from run to run')
+    reg = [f for f in fx.file(CACHE)['fns'] if T.last_seg(T.norm(f['path'])) == 'register' and 'ModuleCache' in f['path']]
+    counter = any(n.get('k') == 'AssignOp' and 'last_id' in T.show(n['x']) for f in reg for n in T.walk(f['body']))
+    if not chk.need(counter, 'ModuleCache::register no longer numbers modules from the `last_id` counter'):
+        return
+    ords = [i for i in fx.impls('erg_compiler') if i.get('self') == 'module::cache::ModId' and (i.get('trait') or '') in ('core::cmp::Ord', 'core::cmp::PartialOrd')]
+    if ords:
+        chk.bad('C19-modid', 'module::cache::ModId', 'ordered', 'ModId implements %s: a registration counter that follows the thread schedule can now serve as a sort key (the linker sorting its '
+                'module declarations by it makes the .pyc differ between two compilations of the same sources)' % ' / '.join(sorted(i['trait'].split('::')[-1] for i in ords)),
+                CACHE, ords[0].get('line'))
+    else:
+        chk.ok('C19-modid', 'unordered', sample='ModId: Debug, Clone, Copy, PartialEq, Eq, Hash — no order')
